@@ -78,7 +78,8 @@ def run_case(case: dict) -> CaseResult:
     dev = env.dev
     K = float(case.get("K", 4.0))
     named = bool(case.get("named", True))
-    cli = make_client(env, address="10.0.0.1" if case.get("addr", "ip") == "ip" else "dev.example.com", keepalive=K, expected_name="dev", password="pw")
+    addr_kind = case.get("addr", "ip")
+    cli = make_client(env, address={"ip": "10.0.0.1", "name": "dev.example.com", "mdns": "dev.local"}[addr_kind], keepalive=K, expected_name="dev", password="pw")
     plan = case["plan"]
     viol = res.violations
     classes: set[str] = set()
@@ -91,10 +92,16 @@ def run_case(case: dict) -> CaseResult:
         dev.invalid_password = False
         dev.on_frame = None
         env.dns["dev.example.com"] = ("ok", ["10.0.0.9"], D)
+        env.dns["dev.local"] = ("error", D)
+        # (addr "mdns": every attempt looks the name up through the client's zeroconf manager -- the one the reconnect
+        # manager listens on when the library had to create the instance itself)
+        world.mdns["dev"] = {"outcome": "ok", "v4": ["10.0.0.9"], "delay": D}
         env.tcp_script = [("ok", 2 * D)]
         if kind == "resolve_error":
-            if case.get("addr", "ip") == "ip":
+            if addr_kind == "ip":
                 env.tcp_script = [("oserror", D)]
+            elif addr_kind == "mdns":
+                world.mdns["dev"] = {"outcome": "none", "delay": D}
             else:
                 env.dns["dev.example.com"] = ("error", D)
         elif kind == "refuse":
@@ -197,7 +204,7 @@ def run_case(case: dict) -> CaseResult:
                    "other_txt": Rec(16, name="other._esphomelib._tcp.local."), "other_aaaa": Rec(28, name="other.local."),
                    "other_srv": Rec(33, name="other._esphomelib._tcp.local."), "other_nsec": Rec(47, name="other.local.")}[kind]
             matching = kind in ("ptr", "a")
-            listeners = [(z, l) for z in world.zcs for l in list(z.listeners)]
+            listeners = [(z, l) for z in world.zcs for l in list(z.listeners) if not z.closed]  # a closed instance hears nothing
             if listeners:
                 env.log("mdns_deliver", matching=matching, registered=True, rec=kind)
                 for z, l in listeners:
@@ -283,6 +290,7 @@ def judge(env, world, case, viol, classes) -> None:
     attempts: list = []     # dict(idx, t, seq, outcome)
     streak = 0
     listening = False
+    listen_zc: set = set()
     disc_cb = None             # (call time, stale slot instants) of the on_disconnect callback currently running / last run
     record_in_error_cb = False  # a matching record reached the manager while the user's on_connect_error callback was still running
     must_listen_since = None   # set at a failure report: from then on (later instants) a named, started, idle manager must be registered
@@ -311,7 +319,7 @@ def judge(env, world, case, viol, classes) -> None:
     for e in tr:
         k = e["kind"]
         t = e["t"]
-        if k in ("rl_start", "rl_stop_call", "rl_stop_returned", "conn_new", "rl_on_error", "rl_on_connect", "rl_on_disconnect", "rl_on_disconnect_ret", "mdns_deliver", "zc_listen", "zc_unlisten", "finale"):
+        if k in ("rl_start", "rl_stop_call", "rl_stop_returned", "conn_new", "rl_on_error", "rl_on_connect", "rl_on_disconnect", "rl_on_disconnect_ret", "mdns_deliver", "zc_listen", "zc_unlisten", "zc_close", "finale"):
             # retry slot expiring unused
             if slot and min(slot) < t - EPS and phase == "idle" and not stopped and slot_mandatory:
                 st_ = min(slot)
@@ -327,8 +335,11 @@ def judge(env, world, case, viol, classes) -> None:
                 must_listen_since = None
         if k == "zc_listen":
             listening = True
+            listen_zc.add(e["zc"])
         elif k == "zc_unlisten":
             listening = False
+        elif k == "zc_close" and not e.get("supplied"):
+            listening = False if e["zc"] in listen_zc else listening
         elif k == "rl_start":
             if phase == "connected" and stopped:
                 # stop() leaves the session up; start() while it is still alive is outside the statement
@@ -567,7 +578,7 @@ def _case(draw, tier):
         else:
             events.append({"t": tt, "do": "end", "how": "reset"})
     events.sort(key=lambda e: e["t"])
-    case = {"named": draw(st.integers(0, 5)) != 0, "addr": draw(st.sampled_from(["ip", "ip", "name"])), "K": 4.0, "plan": plan, "events": events, "horizon": draw(st.sampled_from([200, 400]))}
+    case = {"named": draw(st.integers(0, 5)) != 0, "addr": draw(st.sampled_from(["ip", "ip", "name", "mdns"])), "K": 4.0, "plan": plan, "events": events, "horizon": draw(st.sampled_from([200, 400]))}
     if draw(st.integers(0, 3)) == 0:
         # slow user callbacks; start()/stop() racing with a callback that is still running is outside the statement,
         # so these histories keep only the initial start()
@@ -580,7 +591,18 @@ def strategy(tier):
     return _case(tier)
 
 
+def _mdns_addr_cases():
+    """The device address itself is an mDNS name and no zeroconf instance was supplied: lookups and the manager's
+    listener share the instance the library created."""
+    for kind in (["refuse", 2], ["resolve_error"], ["garbage"]):
+        for k in (1, 2, 3):
+            for rec in ("ptr", "a"):
+                yield {"named": True, "addr": "mdns", "K": 4.0, "plan": [kind] * k + [["refuse", 2]] * 2 + [["ok"]], "events": [{"t": 0, "do": "start"}, {"t": 64 * 3 * k + 40, "do": "mdns", "rec": rec}, {"t": 64 * 40, "do": "mdns", "rec": rec}], "horizon": 200}
+        yield {"named": True, "addr": "mdns", "K": 4.0, "plan": [kind, kind, ["ok"]], "events": [{"t": 0, "do": "start"}, {"t": 64 * 30, "do": "end", "how": "discreq"}, {"t": 64 * 60, "do": "stop"}], "horizon": 200}
+
+
 def enumerated(tier):
+    yield from _mdns_addr_cases()
     # exact back-off ladder: k failures then success, for every failure kind
     for kind in (["refuse", 2], ["resolve_error"], ["garbage"], ["badname"]):
         for k in range(1, 9):
